@@ -38,14 +38,15 @@ def dyn_header(table_offset, max_entries, block_size):
     return bytes(h)
 
 
-def gen_recipe(rng, tier, big=False):
+def gen_recipe(rng, tier, big=False, bs=None, nb=None):
     legacy = rng.random() < 0.15
     if rng.random() < 0.2:
         size = rng.choice([512, 4096, 12288, 100 * 512, 65536 + 512, 1 << 20])
         return {"kind": "fixed", "size": size, "legacy": legacy, "seed": rng.randrange(256)}
-    bs = rng.choice([4096, 4096, 8192, 8192, 65536, 1 << 19] + ([1 << 21, 1 << 22] if tier == "thorough" else []))
-    nb = rng.choice([1, 2, 3, 3, 5, 8, 13, 30] + ([4200] if big else []))
-    if nb > 100:
+    fixed = bs is not None
+    bs = bs or rng.choice([4096, 4096, 8192, 8192, 65536, 1 << 19] + ([1 << 21, 1 << 22] if tier == "thorough" else []))
+    nb = nb or (rng.choice([1100, 2300, 4200]) if big else rng.choice([1, 2, 3, 3, 5, 8, 13, 30]))      # big: more BAT entries than any cache chunk
+    if nb > 100 and not fixed:
         bs = 4096
     size = nb * bs - (rng.randrange(bs // 512) * 512 if rng.random() < 0.4 else 0)
     size = max(size, 512)
@@ -168,7 +169,7 @@ def generate(seed, tier):
     n = 240 if tier == "quick" else 3000
     cases = []
     for i in range(n):
-        big = (i % 60 == 7)
+        big = (i % 20 == 7)
         r = gen_recipe(rng, tier, big=big)
         align = rng.choice([8192] * 6 + [512, 4096, 65536, 1 << 20, 1536])
         cases.append({"id": f"g{i}", "recipe": r, "align": align, "queries": gen_queries(rng, r, 10 if tier == "quick" else 16)})
